@@ -259,8 +259,9 @@ def literal_collect(chk, sets, cfgs, futs):
             cname, opts, route, folded, reload = cfg
             r = futs[(name, cname)].result()
             if not r["ok"]:
-                if ci == 0:
-                    raise vlib.MachineryError("reference configuration cannot run program %s: %s" % (name, r))
+                if ci == 0 or (not folded and r["stage"] in ("cc", "compile")):
+                    # nothing is folded here, so no constant of ours is in the generated code: the tool chain is broken
+                    raise vlib.MachineryError("configuration %s cannot build program %s: %s" % (cname, name, r))
                 events.append({"ev": "NoObs", "program": name, "cfg": cname, "route": route, "stage": r["stage"],
                                "rc": r["rc"], "detail": r["out"]})
                 continue
@@ -289,13 +290,34 @@ def literal_collect(chk, sets, cfgs, futs):
                     "observations": nobs, "libc_literal_roundtrip_mismatch(drift)": libc_mismatch}
 
 
+def _private_build(d):
+    """The build cache is shared with concurrently running checks and evicts old entries: work on private
+    copies of the three artefacts this check executes or links (compiler, C run-time, harness)."""
+    import shutil
+    last = None
+    for attempt in range(3):
+        try:
+            b = vlib.vbuild()
+            h = vlib.harness_build("xfloat_drv", [os.path.join(vlib.VERIF, "harness/xfloat_drv.c")], b)
+            pb = dict(b)
+            for k in ("aldor", "rt"):
+                dst = os.path.join(d, "build-" + os.path.basename(b[k]))
+                shutil.copy2(b[k], dst)
+                pb[k] = dst
+            h2 = os.path.join(d, "xfloat_drv")
+            shutil.copy2(h, h2)
+            return pb, h2
+        except (IOError, OSError) as ex:      # evicted under our feet: build again
+            last = ex
+    raise vlib.MachineryError("cannot obtain a private copy of the build: %s" % last)
+
+
 # --------------------------------------------------------------------------- the check
 
 def run(chk, tier):
     quick = tier == "quick"
-    b = vlib.vbuild()
-    h = vlib.harness_build("xfloat_drv", [os.path.join(vlib.VERIF, "harness/xfloat_drv.c")], b)
     d = vlib.scratch("c19")
+    b, h = _private_build(d)
     totals = {"drift": 0, "inset": {"S": 0, "D": 0}, "counts": {}, "cards": None, "drift_first": []}
     pool = cf.ThreadPoolExecutor(max_workers=12 if quick else 18)
 
@@ -312,7 +334,7 @@ def run(chk, tier):
             for mod, m, w, cov in models]
 
     # (C) the real routines: enumerated, random and foreign patterns through harness/xfloat_drv.c
-    fam = ("lite", "mini") if quick else ("boundary", "boundary")
+    fam = ("lite", "mini") if quick else ("boundary", "lite")
     nrand = 4000 if quick else 100000
     jobs = [pool.submit(_harness, h, ["enum", fam[0], "none"], os.path.join(d, "enumS.ndjson")),
             pool.submit(_harness, h, ["enum", "none", fam[1]], os.path.join(d, "enumD.ndjson")),
@@ -338,7 +360,7 @@ def run(chk, tier):
     for j in jobs[:4]:
         p = j.result()
         tag = os.path.basename(p)[:-7]
-        nch = {"enumS": 2 if quick else 4, "enumD": 4 if quick else 48, "rand": 2 if quick else 12,
+        nch = {"enumS": 2 if quick else 4, "enumD": 4 if quick else 16, "rand": 2 if quick else 12,
                "xenum": 1 if quick else 4}[tag]
         for cp in _split(p, nch, d, tag):
             vfuts.append((os.path.basename(cp), cp, pool.submit(_validate, cp)))
